@@ -72,8 +72,8 @@ inductive CloseK where
   /-- `close()` was the operation -/
   | op
   /-- `close()` was called by `handle_io_error` inside `write_frame` (buffer lock still held);
-  `fs` are the frames of the operation, the head being the one whose write failed -/
-  | inWrite (fs : List Frame)
+  `fs` are the encoded frames of the operation, the head being the one whose write failed -/
+  | inWrite (fs : List Bytes)
   deriving Repr, DecidableEq, Inhabited
 
 inductive PC where
@@ -81,20 +81,21 @@ inductive PC where
   | idle
   /-- `open_stream` passed its closed check (`os:checked`) -/
   | openChecked
-  /-- at the start of `write_frame` for the head of `fs` (`wf:enter`) -/
-  | enter (fs : List Frame)
+  /-- at the start of `write_frame` for the head of `fs` (`wf:enter`); `fs` are the encoded frames
+  the operation still has to write (`write_data_frame` has one per 65535-byte chunk) -/
+  | enter (fs : List Bytes)
   /-- queued on the buffer lock -/
-  | waitBuf (fs : List Frame)
+  | waitBuf (fs : List Bytes)
   /-- holds the buffer lock (`wf:locked`) -/
-  | locked (fs : List Frame)
+  | locked (fs : List Bytes)
   /-- holds the buffer lock, pieces prepared, about to request the writer lock (`wp:lock`) -/
-  | preWr (ps : List Bytes) (fs : List Frame)
+  | preWr (ps : List Bytes) (fs : List Bytes)
   /-- holds the buffer lock, queued on the writer lock -/
-  | waitWr (ps : List Bytes) (fs : List Frame)
+  | waitWr (ps : List Bytes) (fs : List Bytes)
   /-- holds both locks, about to write the head of `ps` (`wp:piece`) -/
-  | piece (ps : List Bytes) (fs : List Frame)
+  | piece (ps : List Bytes) (fs : List Bytes)
   /-- `write_with_padding` returned `r`; buffer lock still held (`wf:done`) -/
-  | wdone (r : Res) (fs : List Frame)
+  | wdone (r : Res) (fs : List Bytes)
   /-- `close()`: flag set (`cl:flag`) -/
   | cflag (k : CloseK)
   /-- `close()`: tables drained (`cl:drained`) -/
@@ -119,6 +120,8 @@ structure Task where
   /-- ghost: per `open` operation started so far, the stream id it registered (`none`: refused at
   the closed check) -/
   sids : List (Option Nat) := []
+  /-- ghost: the encoded frames handed to `write_frame` so far, in submission order -/
+  submitted : List Bytes := []
   deriving Repr, DecidableEq, Inhabited
 
 /-- ghost: one unit accepted into the logical frame sequence -/
@@ -131,7 +134,9 @@ structure Unit' where
 
 structure CS where
   s : Sess
-  tasks : List Task := []
+  /-- the tasks, by id; ids `≥ n` are unused (finished tasks with nothing to do) -/
+  tasks : Nat → Task := fun _ => { pc := .fin }
+  n : Nat := 0
   bufHolder : Option Nat := none
   bufQ : List Nat := []
   wrHolder : Option Nat := none
@@ -141,14 +146,25 @@ structure CS where
   log : List Unit' := []
   /-- ghost: a transport write has failed (the rest of that write was dropped) -/
   failed : Bool := false
-  deriving Repr, Inhabited
+  deriving Inhabited
 
-def CS.task (cs : CS) (t : Nat) : Task := cs.tasks.getD t {}
+def CS.task (cs : CS) (t : Nat) : Task := cs.tasks t
 
 def CS.setTask (cs : CS) (t : Nat) (f : Task → Task) : CS :=
-  { cs with tasks := cs.tasks.modify t f }
+  { cs with tasks := fun i => if i = t then f (cs.tasks i) else cs.tasks i }
+
+/-- a new task appears (spawned by the application, or the receive loop reacting to an event) -/
+def CS.spawn (cs : CS) (k : Task) : CS :=
+  { cs with tasks := fun i => if i = cs.n then k else cs.tasks i, n := cs.n + 1 }
 
 def CS.setPC (cs : CS) (t : Nat) (pc : PC) : CS := cs.setTask t (fun k => { k with pc := pc })
+
+/-- the wire image of a frame (`[]` for a frame the codec refuses; such frames never get this far) -/
+def encodeD (f : Frame) : Bytes := (encode f).getD []
+
+/-- the operation hands `fs` to `write_frame`, one after the other (ghost: they count as submitted) -/
+def CS.submit (cs : CS) (t : Nat) (fs : List Bytes) : CS :=
+  cs.setTask t (fun k => { k with pc := .enter fs, submitted := k.submitted ++ fs })
 
 /-- the operation at the head of the task's list finished with `r` -/
 def CS.finishOp (cs : CS) (t : Nat) (r : Res) : CS :=
@@ -176,7 +192,7 @@ def CS.releaseWr (cs : CS) : CS :=
     | _ => cs
 
 /-- `writer.lock().await` for the write path -/
-def CS.lockWrWrite (cs : CS) (t : Nat) (ps : List Bytes) (fs : List Frame) : CS :=
+def CS.lockWrWrite (cs : CS) (t : Nat) (ps : List Bytes) (fs : List Bytes) : CS :=
   match cs.wrHolder with
   | none => { cs with wrHolder := some t }.setPC t (.piece ps fs)
   | some _ => { cs with wrQ := cs.wrQ ++ [t] }.setPC t (.waitWr ps fs)
@@ -208,41 +224,38 @@ def micro (cs : CS) (t : Nat) : Option CS :=
     | .write f :: _ =>
       match encode f with
       | none => some (cs.finishOp t .errIo)
-      | some _ => some (cs.setPC t (.enter [f]))
-    | .data sid payload :: _ => some (cs.setPC t (.enter (dataFrames (payload.length + 1) sid payload)))
+      | some b => some (cs.submit t [b])
+    | .data sid payload :: _ => some (cs.submit t ((dataFrames (payload.length + 1) sid payload).map encodeD))
     | .dataOwn payload :: _ =>
       let sid := ((k.sids.filterMap id).getLast?).getD 0
-      some (cs.setPC t (.enter (dataFrames (payload.length + 1) sid payload)))
+      some (cs.submit t ((dataFrames (payload.length + 1) sid payload).map encodeD))
     | .open :: _ =>
       if cs.s.closed then some ((cs.setTask t (fun k => { k with sids := k.sids ++ [none] })).finishOp t .errClosed)
       else some (cs.setPC t .openChecked)
     | .close :: _ => some (cs.enterClose t .op)
   | .openChecked =>
     let (s', sid, _) := cs.s.register
-    some (({ cs with s := s' }.setTask t (fun k => { k with sids := k.sids ++ [some sid] })).setPC t
-      (.enter [{ cmd := .syn, sid := sid, data := [] }]))
+    some (({ cs with s := s' }.setTask t (fun k => { k with sids := k.sids ++ [some sid] })).submit t
+      [encodeD { cmd := .syn, sid := sid, data := [] }])
   | .enter fs =>
     match cs.bufHolder with
     | none => some ({ cs with bufHolder := some t }.setPC t (.locked fs))
     | some _ => some ({ cs with bufQ := cs.bufQ ++ [t] }.setPC t (.waitBuf fs))
   | .waitBuf _ => none
   | .locked [] => some (cs.releaseBuf.finishOp t .ok)     -- unreachable: `fs` is never empty here
-  | .locked (f :: fs) =>
-    match encode f with
-    | none => some (cs.releaseBuf.finishOp t .errIo)     -- unreachable: encodable frames only get here
-    | some bytes =>
-      if cs.s.closed then some (cs.releaseBuf.finishOp t .errClosed)
-      else if cs.s.buffering then
-        let cs := { cs with s := { cs.s with buffer := cs.s.buffer ++ bytes }, log := cs.log ++ [({ owner := some t, bytes := bytes } : Unit')] }
-        let cs := cs.releaseBuf
-        if fs.isEmpty then some (cs.finishOp t .ok) else some (cs.setPC t (.enter fs))
-      else
-        let payload := cs.s.buffer ++ bytes
-        let (s', ps) := { cs.s with buffer := [] }.prepare payload
-        -- ghost: the frame, then whatever padding the pieces carry beyond the payload
-        let pad := ps.flatten.drop payload.length
-        let cs := { cs with s := s', log := cs.log ++ [({ owner := some t, bytes := bytes } : Unit')] ++ (if pad.isEmpty then [] else [({ owner := none, bytes := pad } : Unit')]) }
-        some (cs.setPC t (.preWr ps (f :: fs)))
+  | .locked (bytes :: fs) =>
+    if cs.s.closed then some (cs.releaseBuf.finishOp t .errClosed)
+    else if cs.s.buffering then
+      let cs := { cs with s := { cs.s with buffer := cs.s.buffer ++ bytes }, log := cs.log ++ [({ owner := some t, bytes := bytes } : Unit')] }
+      let cs := cs.releaseBuf
+      if fs.isEmpty then some (cs.finishOp t .ok) else some (cs.setPC t (.enter fs))
+    else
+      let payload := cs.s.buffer ++ bytes
+      let (s', ps) := { cs.s with buffer := [] }.prepare payload
+      -- ghost: the frame, then whatever padding the pieces carry beyond the payload
+      let pad := (flatten ps).drop payload.length
+      let cs := { cs with s := s', log := cs.log ++ [({ owner := some t, bytes := bytes } : Unit')] ++ (if pad.isEmpty then [] else [({ owner := none, bytes := pad } : Unit')]) }
+      some (cs.setPC t (.preWr ps (bytes :: fs)))
   | .preWr ps fs => some (cs.lockWrWrite t ps fs)
   | .waitWr _ _ => none
   | .piece [] fs => some (cs.releaseWr.setPC t (.wdone .ok fs))
@@ -303,7 +316,7 @@ def runFree : Nat → CS → Nat → CS
 def settle : Nat → CS → CS
   | 0, cs => cs
   | fuel + 1, cs =>
-    match (List.range cs.tasks.length).find? (fun t => (cs.task t).free) with
+    match (List.range cs.n).find? (fun t => (cs.task t).free) with
     | some t => settle fuel (runFree 64 cs t)
     | none => cs
 
